@@ -157,6 +157,7 @@ def r2(model, rep, r):
     gp = model.own_method("System", "_get_parents")
     okr = sysrules.parents_reader_rule(model, rep, gp, reg, "R2")
     rep.instance("R2", "system.System._get_parents reads the stored order position by position", "%s:%d" % (rel, gp.lineno), okr)
+    sysrules.relation_table_rule(model, rep, "R2")
     # who consumes the unordered predecessor view
     okc = True
     users = []
